@@ -260,6 +260,35 @@ example : buildQueueAcquiresFirst
     [{ cls := "mutex", fn := "build_queue", base := "", field := "_queue", write := false, pos := 0, nOps := 0, inAssert := true },
      { cls := "mutex", fn := "build_queue", base := "", field := "_queue", write := true, pos := 4, nOps := 1, inAssert := false }] = false := by decide
 
+/-- split the rows of one function into its overloads (the position counter restarts at 0 for every body) -/
+def overloadSegments (rows : List PlainAccess) : List (List PlainAccess) :=
+  rows.foldr (fun a acc =>
+    match acc with
+    | [] => [[a]]
+    | seg :: rest => if (seg.head?.map (·.pos)).getD 0 == 0 then [a] :: seg :: rest else (a :: seg) :: rest) []
+
+/-- in every overload of `future::set` the payload (`_value`, `_exception`, `_ptr_value`) is written before `_state` says that
+there is one: a constructor that throws must leave a future that still says "no value" (the catch path of `promise::set_value`,
+fix 185ea23, resolves it as such), and a thread that learns of readiness never finds `State::value` over raw storage -/
+def setConstructsBeforeState (tbl : List PlainAccess) : Bool :=
+  let segs := overloadSegments (tbl.filter (fun a => a.cls == "future" && a.fn == "set"))
+  segs.length ≥ 2 &&
+  segs.all (fun seg =>
+    let pay := (seg.filter (fun a => !a.inAssert && ["_value", "_exception", "_ptr_value"].contains a.field)).map (·.pos)
+    let st := (seg.filter (fun a => !a.inAssert && a.field == "_state" && a.write)).map (·.pos)
+    pay.length ≥ 1 && st.length == 1 && allBefore pay st)
+
+theorem c03_set_constructs_before_state : setConstructsBeforeState Generated.plainAccesses = true := by decide
+
+/-- the shape "state first, construction afterwards" is rejected -/
+example : setConstructsBeforeState
+    [{ cls := "future", fn := "set", base := "", field := "_state", write := false, pos := 0, nOps := 0, inAssert := true },
+     { cls := "future", fn := "set", base := "", field := "_state", write := true, pos := 1, nOps := 0, inAssert := false },
+     { cls := "future", fn := "set", base := "", field := "_value", write := false, pos := 2, nOps := 0, inAssert := false },
+     { cls := "future", fn := "set", base := "", field := "_state", write := false, pos := 0, nOps := 0, inAssert := true },
+     { cls := "future", fn := "set", base := "", field := "_exception", write := false, pos := 1, nOps := 0, inAssert := false },
+     { cls := "future", fn := "set", base := "", field := "_state", write := true, pos := 2, nOps := 0, inAssert := false }] = false := by decide
+
 /-- an async coroutine's frame is destroyed only after its future has been resolved -/
 theorem c03_final_resolve_before_destroy :
     allBefore (positions Generated.plainAccesses "async_promise::final_awaiter" "await_suspend" ["call:resolve"])
